@@ -22,8 +22,9 @@ type admCfg struct {
 	BtcEnabled, LbtcEnabled                      bool
 	Spendable, Receivable                        uint64 // msat
 	Balance, OpeningFee                          uint64 // sat
-	RatePPM                                      int64 // rate of the requested direction
-	OtherRatePPM                                 int64 // rate of the other direction (must not matter)
+	RatePPM                                      int64  // rate of the requested direction
+	OtherRatePPM                                 int64  // rate of the other direction (must not matter)
+	NodeNetwork                                  string
 }
 
 type admReq struct {
@@ -59,7 +60,7 @@ func admissible(c admCfg, r admReq) (bool, string) {
 	if liquid && (!c.LbtcEnabled || r.Asset != sim.LbtcAsset) {
 		return false, "chain-liquid"
 	}
-	if bitcoin && (!c.BtcEnabled || r.Network != "regtest") {
+	if bitcoin && (!c.BtcEnabled || r.Network != c.NodeNetwork) {
 		return false, "chain-bitcoin"
 	}
 	if r.Version != 7 {
@@ -133,6 +134,7 @@ func TestC11Admission(t *testing.T) {
 		c := admCfg{AllowNew: true, AcceptAll: rapid.Bool().Draw(t, "acceptAll"), Allowlisted: true, MinMsat: rapid.SampledFrom([]uint64{0, 1000, 100_000_000, 250_000_500}).Draw(t, "minMsat"),
 			BtcEnabled: true, LbtcEnabled: true, Spendable: 5_000_000_000, Receivable: 5_000_000_000, Balance: 10_000_000, OpeningFee: 1000,
 			RatePPM: rapid.SampledFrom([]int64{0, 0, 1000, 2000, -500}).Draw(t, "rate"), OtherRatePPM: rapid.SampledFrom([]int64{0, 5000, -3000, 100_000}).Draw(t, "otherRate")}
+		c.NodeNetwork = "regtest"
 		if !c.AcceptAll {
 			c.Allowlisted = true
 		} else {
@@ -151,7 +153,7 @@ func TestC11Admission(t *testing.T) {
 		// ... then a generated number of deviations, each breaking (or probing the edge of) one condition
 		devs := []string{"swaps-disabled", "chain-off", "wrong-network", "wrong-asset", "both-chains", "no-chain", "version", "amount-below-min", "amount-at-min", "amount-zero",
 			"amount-over-capacity", "amount-at-capacity", "amount-overflow", "not-allowlisted", "suspicious", "premium-over-limit", "premium-at-limit", "premium-limit-between-directions", "balance-short", "balance-exact", "balance-below-fee", "balance-zero",
-			"bad-pubkey", "bad-scid", "unknown-channel"}
+			"bad-pubkey", "bad-scid", "unknown-channel", "node-on-other-network", "node-on-other-network"}
 		nd := rapid.SampledFrom([]int{0, 0, 1, 1, 1, 1, 2, 3}).Draw(t, "ndev")
 		var applied []string
 		for k := 0; k < nd; k++ {
@@ -217,6 +219,12 @@ func TestC11Admission(t *testing.T) {
 				c.Balance = r.Amount + c.OpeningFee - 1
 			case "balance-exact":
 				c.Balance = r.Amount + c.OpeningFee
+			case "node-on-other-network":
+				// the node's own bitcoin network and the requested one: equal names match, nothing else does
+				c.NodeNetwork = rapid.SampledFrom([]string{"mainnet", "testnet3", "testnet4", "signet", "testnet"}).Draw(t, "nodeNetwork")
+				if !liquid {
+					r.Network = rapid.SampledFrom([]string{"mainnet", "testnet", "testnet3", "testnet4", "signet", "regtest", c.NodeNetwork, c.NodeNetwork}).Draw(t, "reqNetwork")
+				}
 			case "bad-pubkey":
 				r.Pubkey = rapid.SampledFrom([]string{keyHex[:64], keyHex + "00", "zz", ""}).Draw(t, "pubkey")
 			case "bad-scid":
@@ -251,6 +259,7 @@ func TestC11Admission(t *testing.T) {
 		}
 		a.WritePolicy(pol)
 		a.BtcEnabled, a.LbtcEnabled = c.BtcEnabled, c.LbtcEnabled
+		a.BtcNetwork = c.NodeNetwork
 		a.Balance["btc"], a.Balance["lbtc"] = c.Balance, c.Balance
 		a.OpeningFee = c.OpeningFee
 		ch := w.LN.AddChannel("300x3x0", a.Id, m.Id, 0, 0)
